@@ -120,11 +120,23 @@ class Arr:
         return a
 
 
+LOOP_BOUNDS: list = []      # [(symbol, lower bound)] of the loops being executed (set by SymExec)
+
+
 def _provably_distinct(k1, k2):
     for a, b in zip(k1, k2):
         d = sp.simplify(a - b)
         if d.is_number and d != 0:
             return True
+        if LOOP_BOUNDS and not d.is_number:
+            sub = {}
+            for v, lo in LOOP_BOUNDS:
+                if v in d.free_symbols:
+                    sub[v] = lo + Symbol("_t_" + str(v), nonnegative=True, integer=True)
+            if sub:
+                dd = sp.simplify(d.subs(sub))
+                if dd.is_positive or dd.is_negative:
+                    return True
     return False
 
 
@@ -225,6 +237,27 @@ class SymExec:
         if isinstance(e, ast.Subscript):
             base = self.ev(e.value)
             if isinstance(base, Arr):
+                items = e.slice.elts if isinstance(e.slice, ast.Tuple) else [e.slice]
+                if any(isinstance(x, ast.Slice) for x in items):
+                    lows = []
+                    for x in items:
+                        if isinstance(x, ast.Slice):
+                            if x.step is not None:
+                                raise Undecided("strided slice")
+                            lows.append(("s", self.ev(x.lower) if x.lower is not None else Integer(0)))
+                        else:
+                            lows.append(("i", self.ev(x)))
+
+                    def f(ix, base=base, lows=lows):
+                        out, k = [], 0
+                        for kind, lo in lows:
+                            if kind == "s":
+                                out.append(lo + ix[k])
+                                k += 1
+                            else:
+                                out.append(lo)
+                        return base.read(out)
+                    return Vec(f)
                 idx = self.index(e.slice)
                 return base.read(idx)
             if isinstance(base, (tuple, list)):
@@ -235,6 +268,8 @@ class SymExec:
                 i = self.ev(e.slice)
                 if i.is_Integer:
                     return base.dim(int(i))
+            if isinstance(base, Vec):
+                return base.f(tuple(self.index(e.slice)))
             raise Undecided(f"subscript `{src(e)[:50]}`")
         if isinstance(e, ast.Attribute):
             base = e.value
@@ -409,6 +444,12 @@ class SymExec:
                 base.cells = {}
                 base.generic = (lambda ix, v=v: _elem(v, ix))
                 return
+            if isinstance(t.slice, ast.Tuple) and all(isinstance(x, ast.Slice) and x.lower is None and x.upper is None
+                                                       for x in t.slice.elts) and isinstance(val, (Vec, Arr)):
+                v = val
+                base.cells = {}
+                base.generic = (lambda ix, v=v: _elem(v, ix))
+                return
             if isinstance(t.slice, ast.Slice) or (isinstance(t.slice, ast.Tuple) and any(isinstance(x, ast.Slice) for x in t.slice.elts)):
                 raise Undecided(f"slice store `{src(t)[:40]}`")
             base.write(self.index(t.slice), val)
@@ -491,13 +532,26 @@ class SymExec:
         involve v and that are updated additively become sums"""
         before = self.snapshot()
         self.loop_vars.append((v, lo, hi))
+        LOOP_BOUNDS.append((v, lo))
         self.all_loop_syms = getattr(self, "all_loop_syms", set()) | {v}
-        self.block(st.body)
-        self.loop_vars.pop()
+        try:
+            self.block(st.body)
+        finally:
+            self.loop_vars.pop()
+            LOOP_BOUNDS.pop()
         after = self.env
         for k, val in list(after.items()):
             if isinstance(val, Arr):
                 b = before.get(k)
+                if isinstance(b, Arr) and val.generic is not b.generic and val.generic is not None:
+                    # fully re-initialised inside the body: a per-iteration scratch array
+                    stale = [idx for idx, expr in val.cells.items()
+                             if not any(v in i.free_symbols for i in idx) and v in expr.free_symbols]
+                    if stale:
+                        fresh = Function(f"scratch_{val.name}_{st.lineno}")
+                        val.cells = {}
+                        val.generic = (lambda ix, fresh=fresh: fresh(*ix))
+                        continue
                 for idx, expr in list(val.cells.items()):
                     if any(v in i.free_symbols for i in idx):
                         continue       # pointwise cell
@@ -685,9 +739,11 @@ def alg_equal(a, b):
     if (getattr(a, "has", None) and a.has(sp.Sum)) or (getattr(b, "has", None) and b.has(sp.Sum)):
         ra, sa = _split_sums(a)
         rb, sb = _split_sums(b)
-        if set(sa) != set(sb):
-            return False
-        return alg_equal(ra, rb) and all(alg_equal(sa[k], sb[k]) for k in sa)
+        if sa or sb:
+            if set(sa) != set(sb):
+                return False
+            return alg_equal(ra, rb) and all(alg_equal(sa[k], sb[k]) for k in sa)
+        # sums only occur inside products/functions: treat them as atoms below
     d = sp.together(a - b)
     n, _ = sp.fraction(d)
     n = sp.expand(n)
